@@ -13,7 +13,7 @@ R="${ROUND:-}"; WT="/tmp/seed${R}-$P"; OUT="/tmp/seed${R}-$P-out/$V"
 lower="$(echo "$P" | tr 'A-Z' 'a-z')_$(echo "$V" | tr 'A-Z' 'a-z')"
 DEMO="$WT/rust/ommx/tests/seeded_demo${R}_$lower.rs"
 cd "$WT" || exit 2
-git checkout -q -- . ; git clean -qfd -e .verif-build -e target
+git checkout -q -- . ; git clean -qfd -e .verif-build -e target; git checkout -q --detach "$(git -C /repo rev-parse HEAD)" 2>/dev/null
 mkdir -p "$WT/rust/ommx/tests"; cp "$OUT/demo.rs" "$DEMO"
 res_plain="$(cargo test -p ommx --offline --test "seeded_demo${R}_$lower" 2>&1 | grep -E '^test result' | tail -1)"
 if ! git apply "$OUT/patch.diff"; then echo "SEED $P-$V: patch does not apply"; exit 3; fi
@@ -26,7 +26,7 @@ for C in $P ${EXTRA//,/ }; do
   sigs="$(printf '%s\n' "$out" | grep -E '^  signature:' | sed 's/^  signature: //' | tr '\n' ';')"
   det[$C]="rc=$rc $sigs"
 done
-git checkout -q -- . ; git clean -qfd -e .verif-build -e target
+git checkout -q -- . ; git clean -qfd -e .verif-build -e target; git checkout -q --detach "$(git -C /repo rev-parse HEAD)" 2>/dev/null
 D="$HERE/seeded/$P-${R}$V"; mkdir -p "$D"
 cp "$OUT/patch.diff" "$D/patch.diff"; cp "$OUT/demo.rs" "$D/demo.rs"
 detjson="{"; first=1
